@@ -99,7 +99,7 @@ func NewCtx(prop, tier string, seed uint64) *Ctx {
 		Res:      Result{Property: prop, Tier: tier, Seed: seed, Dist: map[string]int{}, Violations: []Violation{}, Samples: []string{}},
 		seen:     map[[8]byte]struct{}{},
 		start:    time.Now(),
-		maxViol:  40,
+		maxViol:  400,
 		violKeys: map[string]int{},
 	}
 }
